@@ -29,6 +29,8 @@ def random_header(rng, family):
         return f"new bufedge {cap} {rng.choice(['FIFO', 'FIFO', 'LIFO'])}"
     if family == "prq":
         return f"new prq {rng.choice([1, 1, 2, 3, 5])}"
+    if family == "cbelt":
+        return f"new cbelt {rng.choice([1, 2, 2, 3, 3, 4, 5])} {rng.choice([1, 2, 2, 4, 8])} {rng.choice([0, 1])}"
     if family == "slot":
         return f"new slot {rng.choice([1, 2, 2, 3, 3, 4, 5])} {rng.choice([1, 1, 2, 2, 4, 0] if rng.random() < 0.2 else [1, 1, 2, 2, 4])} {rng.choice([0, 1])}"
     if family == "fleet":
@@ -80,7 +82,7 @@ def gen_history(rng, header, nops, malformed=0.2, stats=None):
     def new_item():
         if next_item[0] > 0 and rng.random() < 0.05:
             i = rng.randrange(next_item[0])          # the same object put again
-            if family in ("fleet", "slot"):
+            if family in ("fleet", "slot", "cbelt"):
                 if i in gone: return i       # an object is loaded again only after it has left (a flow item is in one place)
             elif family == "pos" or rng.random() < 0.15 or i in gone: return i
         next_item[0] += 1
@@ -91,7 +93,7 @@ def gen_history(rng, header, nops, malformed=0.2, stats=None):
         i = new_item()
         op = ["put", a, tid, i, kinds[i]]
         if family in ("buf", "bufedge"): op.append(rng.choice(DELAYS))
-        if family in ("fleet", "slot"): op.append(0)
+        if family in ("fleet", "slot", "cbelt"): op.append(0)
         return tuple(op)
 
     # belt families: per-history profile, so that items actually travel to the exit and pile up there
@@ -172,9 +174,10 @@ def gen_history(rng, header, nops, malformed=0.2, stats=None):
                 op = ("settle",)
             elif r < 0.96:
                 op = ("kstep",)
-            elif family in ("buf", "bufedge", "fleet", "slot") and r < 0.985:
-                op = ("probe", rng.choice(["can_put", "can_get", "occ", "ready"] if family != "slot" else ["occ", "ready", "mode", "mode"]))
-            elif family in ("buf", "bufedge", "fleet", "slot") and r < 0.99:
+            elif family in ("buf", "bufedge", "fleet", "slot", "cbelt") and r < 0.985:
+                op = ("probe", rng.choice(["can_put", "can_get", "occ", "ready"] if family not in ("slot", "cbelt") else
+                                          (["occ", "ready", "mode", "mode"] if family == "slot" else ["occ", "ready", "mode", "mode", "pat", "pat"])))
+            elif family in ("buf", "bufedge", "fleet", "slot", "cbelt") and r < 0.99:
                 op = ("final",)
             else:
                 op = ("stat",)
@@ -182,6 +185,13 @@ def gen_history(rng, header, nops, malformed=0.2, stats=None):
             op = ("settle",) if family not in ("fleet", "slot", "cbelt") else ("ev",)
         line = impl.do(op)
         ops.append(op); lines.append(line)
+        if family == "cbelt" and op[0] == "put":
+            # SimPy processes URGENT events (the Initialize of the new move process, Interruptions) before any other
+            # process can run: no API call is interleaved there
+            n = 0
+            while impl.urgent_pending() and n < 50:
+                ops.append(("ev",)); lines.append(impl.do(("ev",))); n += 1
+                if stats is not None: stats["ops"]["ev"] = stats["ops"].get("ev", 0) + 1
         # track token states from the implementation's answers
         if line.startswith("tok "):
             tid = int(line.split()[1])
